@@ -42,6 +42,7 @@ PRE = "from vmod import V\n"
 # (label, text) ; {M} is the module's own dotted name
 LOCAL = [
     ("def-x", "def x():\n    '''doc x'''"), ("class-y", "class y:\n    '''doc y'''\n    def m(self, p=1): ...\n    k = 1"), ("val-x", "x = V('{M}:x')"), ("val-y", "y = V('{M}:y')"), ("val-_p", "_p = V('{M}:_p')"),
+    ("mod-alias-vm", "import vmod as vm"),  # a name bound to a MODULE: carried by wildcard imports like any other public name, through any number of levels
 ]
 ALLS = [("all-x", "__all__ = ['x']"), ("all-y", "__all__ = ['y']"), ("all-x-_p", "__all__ = ['x', '_p']"), ("all-empty", "__all__ = []"),
         ("all=all+y", "__all__ = __all__ + ['y']"), ("all=[*all,_p]", "__all__ = [*__all__, '_p']")]
@@ -54,7 +55,7 @@ IMPORTS_FROM_B = [
 A_MENU = LOCAL + ALLS + IMPORTS_FROM_B
 B_VARIANTS = {
     "b-plain": ["def-x", "class-y"], "b-vals": ["val-x", "val-_p"], "b-all-private": ["def-x", "val-_p", "all-x-_p"], "b-all-y": ["def-x", "class-y", "all-y"],
-    "b-empty": [], "b-rebind": ["val-x", "def-x"], "b-y-only": ["val-y"],
+    "b-empty": [], "b-rebind": ["val-x", "def-x"], "b-y-only": ["val-y"], "b-mod-alias": ["def-x", "mod-alias-vm"],
     "b-all-selfref": ["def-x", "class-y", "val-_p", "all-x", "all=all+y", "all=[*all,_p]"],
 }
 INIT_MENU = [
@@ -105,6 +106,7 @@ def all_cases(tier):
                     yield (sel, bv, init[0])
     yield from _cases_up(tier)
     yield from _cases_sub(tier)
+    yield from _cases_exports(tier)
 
 
 def _cases_up(tier):
@@ -128,6 +130,37 @@ def _cases_sub(tier):
                     continue
                 for init in S_INITS:
                     yield (sel, mv, init[0])
+
+
+# E: `__all__` assembled from other modules' `__all__` at several places of ONE package at once (a module, the package, a sub-package), under a package
+# whose own `__all__` is absent / a plain list / empty / composite: every module's list must be expanded whatever its parent's list looks like
+E_AFORMS = {"plus": "__all__ = b.__all__ + ['y']", "star": "__all__ = [*b.__all__, 'y']", "aug": "__all__ = ['y']\n__all__ += b.__all__"}
+E_IFORMS = {"none": "from .c import *", "plain": "from .c import *\n__all__ = ['x', 'y']", "empty": "__all__ = []", "composite": "from . import a\nfrom .a import *\n__all__ = [*a.__all__]"}
+E_SUB = {"pkg/sub/__init__.py": "from . import m\nfrom .m import *\n__all__ = m.__all__ + ['s']\ndef s(): ...\n", "pkg/sub/m.py": "__all__ = ['w']\ndef w(): ...\ndef v(): ...\n",
+         "pkg/sub/n.py": "from pkg.sub import *\n"}
+
+
+def _cases_exports(tier):
+    for af in E_AFORMS:
+        for inf in E_IFORMS:
+            for sub in ("nosub", "sub"):
+                yield ((af, inf, sub), "e", "exp:")
+
+
+def _files_exports(case):
+    af, inf, sub = case[0]
+    files = {
+        "vmod.py": "class V:\n    def __init__(self, origin):\n        self.origin = origin\n",
+        "pkg/__init__.py": E_IFORMS[inf] + "\n",
+        "pkg/b.py": "__all__ = ['x', '_p']\ndef x(): ...\ndef _p(): ...\ndef hidden(): ...\n",
+        "pkg/a.py": "from . import b\nfrom .b import *\n" + E_AFORMS[af] + "\ndef y(): ...\ndef z(): ...\n",
+        "pkg/c.py": "from .a import *\n",
+    }
+    mods = ("pkg.b", "pkg.a", "pkg.c", "pkg")
+    if sub == "sub":
+        files.update(E_SUB)
+        mods = ("pkg.b", "pkg.a", "pkg.c", "pkg.sub.m", "pkg.sub", "pkg.sub.n", "pkg")
+    return files, mods
 
 
 def _plausible(sel):
@@ -247,6 +280,8 @@ def griffe_view(griffe, root, modnames=MODS_FLAT):
 
 def _pattern(case, module):
     sel, bv, init = case
+    if init == "exp:":
+        return f"exports[{','.join(sel)}]/{module}"
     if init.startswith("sub:"):
         return {"pkg.sub": "subinit[" + ",".join(sel) + "]", "pkg.sub.m": bv, "pkg": init, "pkg.top": "top"}[module]
     if module == "pkg.a":
@@ -257,11 +292,13 @@ def _pattern(case, module):
 
 
 def run_case(griffe, acc, case):
-    files = files_for(case)
+    files = _files_exports(case)[0] if case[2] == "exp:" else files_for(case)
     with sandbox.scratch_dir("c05") as d:
         sandbox.write_tree(d, files)
         is_sub = case[2].startswith("sub:")
         modnames = MODS_SUB if is_sub else MODS_FLAT
+        if case[2] == "exp:":
+            modnames = _files_exports(case)[1]
         exp = cpython_view(d, modnames)
         cd = {"case": [list(case[0]), case[1], case[2]], "files": {k: v for k, v in files.items() if k != "vmod.py"}}
         size = sum(len(v) for v in files.values())
@@ -283,7 +320,7 @@ def run_case(griffe, acc, case):
         has_import = any(s.startswith(("wild", "from", "import", "abs")) for s in case[0]) or case[2] != "none"
         acc.case(cd, outcome="imported", nontrivial=has_import)
         acc.observe(got)
-        for mod in (("pkg.top", "pkg", "pkg.sub.m", "pkg.sub") if is_sub else ("pkg.b", "pkg", "pkg.a") if case[2].startswith("up:") else ("pkg.b", "pkg.a", "pkg")):
+        for mod in (modnames if case[2] == "exp:" else ("pkg.top", "pkg", "pkg.sub.m", "pkg.sub") if is_sub else ("pkg.b", "pkg", "pkg.a") if case[2].startswith("up:") else ("pkg.b", "pkg.a", "pkg")):
             (ens, eall), (gns, gall) = exp[mod], got[mod]
             if is_sub and mod == "pkg.sub" and "up-star" in case[0]:
                 # (see the U family: sub-module attributes copied by a star import of the parent are an artefact of import order)
